@@ -638,9 +638,6 @@ func (ls *LState) closeAllUpvalues() { // +inline-start
 } // +inline-end
 
 func (ls *LState) raiseError(level int, format string, args ...interface{}) {
-	if !ls.hasErrorFunc {
-		ls.closeAllUpvalues()
-	}
 	message := format
 	if len(args) > 0 {
 		message = fmt.Sprintf(format, args...)
@@ -1527,9 +1524,6 @@ func (ls *LState) Error(lv LValue, level int) {
 	if str, ok := lv.(LString); ok {
 		ls.raiseError(level, string(str))
 	} else {
-		if !ls.hasErrorFunc {
-			ls.closeAllUpvalues()
-		}
 		ls.Push(lv)
 		ls.Panic(ls)
 	}
@@ -1863,6 +1857,7 @@ func (ls *LState) PCall(nargs, nret int, errfunc *LFunction) (err error) {
 						}
 						ls.stack.SetSp(sp)
 						ls.currentFrame = ls.stack.Last()
+						ls.closeUpvalues(base)
 						ls.reg.SetTop(base)
 					}
 				}()
@@ -1873,6 +1868,9 @@ func (ls *LState) PCall(nargs, nret int, errfunc *LFunction) (err error) {
 			}
 			ls.stack.SetSp(sp)
 			ls.currentFrame = ls.stack.Last()
+			// the unwound frames owned the registers from base upwards: close exactly the
+			// upvalues that point there (and none of the frames that keep running)
+			ls.closeUpvalues(base)
 			ls.reg.SetTop(base)
 		}
 		ls.stack.SetSp(sp)
